@@ -1,8 +1,9 @@
 // C08 harness, part 2: the four signals' public codec API, the correspondence cases and the
 // direct oracle (protobuf part).  Case term (Coq, type  nat * (nat * (pv * (string * N))) ):
-//   (0, (msg, (value, (hex of the real Marshal bytes, real Size))))     value -> bytes
-//   (1, (msg, (VNone | VSome decoded, (hex of the input bytes, 0))))    bytes -> value (raw Unmarshal)
-//   (2, (msg, (VNone | VSome decoded, (hex of the input bytes, 0))))    bytes -> value, decode path that migrates
+//
+//	(0, (msg, (value, (hex of the real Marshal bytes, real Size))))     value -> bytes
+//	(1, (msg, (VNone | VSome decoded, (hex of the input bytes, 0))))    bytes -> value (raw Unmarshal)
+//	(2, (msg, (VNone | VSome decoded, (hex of the input bytes, 0))))    bytes -> value, decode path that migrates
 package pprofileotlp
 
 import (
@@ -39,20 +40,20 @@ type vRespAPI interface {
 }
 
 type vSignal struct {
-	name            string
-	req, data, resp reflect.Type
-	marshalPB       func(req interface{}) ([]byte, error)
-	sizePB          func(req interface{}) int
-	unmarshalPB     func(b []byte) (interface{}, error)
-	marshalJSON     func(req interface{}) ([]byte, error)
-	unmarshalJSON   func(b []byte) (interface{}, error)
-	reqMarshalPB    func(req interface{}) ([]byte, error)
-	reqUnmarshalPB  func(b []byte) (interface{}, error)
-	reqMarshalJSON  func(req interface{}) ([]byte, error)
+	name             string
+	req, data, resp  reflect.Type
+	marshalPB        func(req interface{}) ([]byte, error)
+	sizePB           func(req interface{}) int
+	unmarshalPB      func(b []byte) (interface{}, error)
+	marshalJSON      func(req interface{}) ([]byte, error)
+	unmarshalJSON    func(b []byte) (interface{}, error)
+	reqMarshalPB     func(req interface{}) ([]byte, error)
+	reqUnmarshalPB   func(b []byte) (interface{}, error)
+	reqMarshalJSON   func(req interface{}) ([]byte, error)
 	reqUnmarshalJSON func(b []byte) (interface{}, error)
-	reqMigrates     bool // does ExportRequest.UnmarshalProto call otlp.MigrateX (as the code stands)?
-	newResp         func(rejected int64, msg string) vRespAPI
-	respGet         func(r vRespAPI) (int64, string)
+	reqMigrates      bool // does ExportRequest.UnmarshalProto call otlp.MigrateX (as the code stands)?
+	newResp          func(rejected int64, msg string) vRespAPI
+	respGet          func(r vRespAPI) (int64, string)
 }
 
 func vSignals() []*vSignal {
@@ -323,9 +324,14 @@ func vBuildSchema() (*vSchema, []*vSignal, error) {
 func TestVerifC08Schema(t *testing.T) {
 	out := vOpen()
 	defer out.Close()
-	s, _, err := vBuildSchema()
+	s, sigs, err := vBuildSchema()
 	if err != nil {
 		t.Fatal(err)
+	}
+	if pj := os.Getenv("VERIF_C08_JSON_OUT"); pj != "" {
+		if err := os.WriteFile(pj, []byte(s.coqDecoders(sigs, out.Stat)), 0o644); err != nil {
+			t.Fatal(err)
+		}
 	}
 	p := os.Getenv("VERIF_C08_SCHEMA_OUT")
 	if p == "" {
@@ -407,12 +413,13 @@ func vCaseTerm(kind int, msg int, val string, b []byte, size int) string {
 }
 
 type vRun struct {
-	t    *testing.T
-	out  *vOut
-	s    *vSchema
-	sigs []*vSignal
-	rng  *vRand
-	hist map[string]int
+	t     *testing.T
+	out   *vOut
+	s     *vSchema
+	sigs  []*vSignal
+	rng   *vRand
+	hist  map[string]int
+	jpool []vJSONDoc
 }
 
 // value -> bytes on message type m through the generated Marshal/Size/Unmarshal
@@ -602,4 +609,7 @@ func TestVerifC08(t *testing.T) {
 
 	// (D) byte strings offered to the unmarshalers
 	r.byteCases(pool)
+
+	// (E) texts offered to the JSON unmarshalers
+	r.jsonByteCases()
 }
